@@ -360,6 +360,102 @@ def session_family(ctx, nseq, length, given=None):
     return sum(len(x) for x in seqs)
 
 
+def gen_peer_sessions(r, nseq, length):
+    """sessions for harness `cseq`: calls with a scripted peer (stale / foreign transaction ids, duplicates, partial replies,
+    nothing) and a scripted transmit side (frame taken in pieces, stalled and released, cut by the request timeout)"""
+    seqs = []
+    for q in range(nseq):
+        f = 'T' if q % 5 != 4 else 'R'
+        seq = []
+        for j in range(length):
+            last = j == length - 1
+            k = r.choice([1, 2, 3, 3, 4, 5, 6, 15, 16])
+            u = r.choice(UNITS)
+            style = r.choice([0, 0, 1, 2])
+            if k in (5, 6):
+                s0, n, v = r.randrange(65536), (r.randrange(2) if k == 5 else r.randrange(65536)), None
+            else:
+                lim = LIMIT[k]
+                n = r.choice([1, 2, 3, 9, 16, r.randrange(1, 30), r.randrange(1, 30), 0, lim + 1])
+                s0 = r.randrange(0, 65536 - n + 1) if r.random() < 0.9 else 65535
+                v = ('s', r.choice([0, 1, r.randrange(2, 2**31)])) if k in (15, 16) else None
+            c = norm((f, k, u, s0, n, v, 1, style))
+            acts = r.choice([['g'], ['g'], ['s1', 'g'], ['s-1', 's7', 'g'], ['s-1', 's-1', 's-1', 'g'], ['d', 'g'], ['d', 's2', 'd', 'g'], ['p5', 'r'], ['s3', 'p1', 'r'], ['p7', 't300', 'r'],
+                             ['n'], ['s1', 'n'], ['d'], ['x2'], ['s-1', 'x6'], ['g', 'g'], ['w4.3.100', 'g'], ['w1.1.1.1.1.1.1.300', 's1', 'g'],
+                             ['w5.b', 't100', 'u', 'g'], ['w2.b', 't400', 'u', 's-1', 'g']])
+            cut = 0
+            transmitted = reaches_task(c) and (c[1] in (5, 6) or c[4] <= LIMIT[c[1]])
+            if not transmitted:
+                acts = ['n']                     # nothing is in flight: frames pushed now would reach the idle session
+            elif last:
+                m = r.random()
+                if m < 0.35:
+                    pieces = [r.randrange(1, 5) for _ in range(r.randrange(0, 3))]
+                    acts = ['w' + '.'.join([str(x) for x in pieces] + ['b'])] + r.choice([[], ['t200'], ['s1']])
+                    cut = sum(pieces) + 1                       # cut after sum(pieces) bytes
+                elif m < 0.5:
+                    acts = [f'p{r.randrange(1, 9)}']
+            seq.append((c, acts, cut))
+        seqs.append(seq)
+    return seqs
+
+
+def peer_family(ctx, nseq, length, given=None):
+    """the COMPLETE wire log of a connection while the peer sends stale / foreign / duplicate / partial frames or nothing and
+    the transport takes the frames in pieces, stalls or stops: vs Model session_stream and Spec ref_session_stream (C03_session_stream)"""
+    seqs = given or gen_peer_sessions(ctx.rng, nseq, length)
+    seqs = [[(norm(c), list(a), int(k)) for c, a, k in seq] for seq in seqs]
+
+    def tok(c, acts):
+        f, k, u, s0, n, v, lit, style = c
+        vs = '-' if v is None else (f's{v[1]}' if v[0] == 's' else 'l' + ';'.join(str(x) for x in v[1]))
+        return f'{k}{"r" if lit else ""},{u},{s0},{n},{vs},{"fcx"[style]}@{"+".join(acts)}'
+    lines = [seq[0][0][0] + ' ' + ' '.join(tok(c, a) for c, a, _ in seq) for seq in seqs]
+    out = ctx.harness('cseq', lines)
+
+    def coq_call(c, cut):
+        f, k, u, s0, n, v, lit, style = c
+        vs = 'Seed 0 0' if v is None else (f'Seed {v[1]} {n}' if v[0] == 's' else 'Lst ' + vlib.coq_N_list(v[1]))
+        return f'({style}, {k}, {u}, {s0}, {n}, {vs}, {cut}, false)'
+    both = ctx.coq_eval(REQS, 'run_stream_case', [f'({vlib.coq_bool(seq[0][0][0] == "T")}, [{"; ".join(coq_call(c, k) for c, _, k in seq)}])' for seq in seqs],
+                        case_type='stream_case', per_shard=25)
+    bad = 0
+    stats = {'peer-sessions': len(seqs), 'peer-calls': sum(len(x) for x in seqs)}
+    for seq, ln, o, b in zip(seqs, lines, out, both):
+        m = __import__('re').fullmatch(r'wire=(\S+) res=(.*) end=(\S+)', o)
+        model, spec = b.split('|')
+        spec = model if spec == '=' else spec
+        wire = (m.group(1).replace('+', '').replace('-', '') if m else o)
+        res = m.group(2) if m else ''
+        end = m.group(3) if m else '?'
+        for _, acts, cut in seq:
+            for a in acts:
+                key = 'peer-act:' + ('stale' if a[0] == 's' else 'duplicate' if a == 'd' else 'partial' if a[0] == 'p' else 'rest' if a == 'r' else 'nothing' if a == 'n'
+                                     else 'exception' if a[0] == 'x' else 'write-script' if a[0] == 'w' else 'release' if a == 'u' else 'time' if a[0] == 't' else 'genuine')
+                stats[key] = stats.get(key, 0) + 1
+            if cut:
+                stats['peer-act:write-cut-by-timeout'] = stats.get('peer-act:write-cut-by-timeout', 0) + 1
+        cutlast = seq[-1][2] != 0
+        # the frame is cut only if the call is transmitted at all and the cut point lies inside the frame: the Spec decides; the
+        # session must then have ended with Io(TimedOut), and must still be running otherwise
+        ok_wire = (wire == spec == model)
+        bad_tokens = [t for t in ('HUNG', 'PANIC', 'STUCK') if t in res or t in end]
+        if not ok_wire or bad_tokens:
+            bad += 1
+            if bad <= 2:
+                # first differing byte -> frame index
+                ix = next((i for i in range(0, min(len(wire), len(spec)), 2) if wire[i:i + 2] != spec[i:i + 2]), min(len(wire), len(spec))) // 2
+                key = 'client.session.wire-log-with-scripted-peer-differs-from-the-spec' if wire != spec else ('model-differs-from-impl' if wire != model else 'client.session.hung-or-panicked')
+                ctx.violation(key, f'connection over {"TCP" if seq[0][0][0] == "T" else "RTU"} with a scripted peer: the client wrote {len(wire) // 2} bytes, the Spec (one serialisation per accepted '
+                              f'call, in order, nothing else: ref_session_stream) says {len(spec) // 2}; first difference at byte {ix}: wire `...{wire[max(0, 2 * ix - 8):2 * ix + 32]}` '
+                              f'Spec `...{spec[max(0, 2 * ix - 8):2 * ix + 32]}`; results `{res[:120]}` end={end} [cseq: {ln[:400]}]',
+                              {'peer_sessions': [[[jcase(c), a, k] for c, a, k in seq]], 'impl': o[:3000], 'spec': spec[:3000]}, no_failing_input=(wire == spec and not bad_tokens))
+        if cutlast and ok_wire and len(spec) and end not in ('Io(TimedOut)', '-'):
+            bad += 1
+    ctx.oblige('correspondence:wire-log-with-scripted-peer-and-transport-vs-model-and-spec', bad == 0, f'{bad} of {len(seqs)} sessions')
+    return stats
+
+
 def run(ctx):
     ctx.translate(['Consts.v', 'ClientTables.v'])
     models_ok = ctx.build_models(REQS + ['Spec.ClientCodecSpec'])
@@ -369,6 +465,10 @@ def run(ctx):
     if not ctx.build_harness() or not models_ok:
         return
     quick = ctx.quick()
+    if ctx.replay and 'peer_sessions' in ctx.replay:
+        st = peer_family(ctx, 0, 0, given=ctx.replay['peer_sessions'])
+        ctx.coverage.update({'evaluations': st['peer-calls'], 'distinct_nontrivial': st['peer-calls'], 'rule': 'replay of scripted-peer sessions', 'samples': []})
+        return
     if ctx.replay and 'session' in ctx.replay:
         n = session_family(ctx, 0, 0, given=[ctx.replay['session']])
         ctx.coverage.update({'evaluations': n, 'distinct_nontrivial': n, 'rule': 'replay of one session', 'samples': []})
@@ -473,6 +573,12 @@ def run(ctx):
     if not ctx.replay:
         n_sess = session_family(ctx, 8 if quick else 64, 60 if quick else 300)
         classes['session-calls'] = n_sess
+        pst = peer_family(ctx, 150 if quick else 3000, 6)
+        classes.update(pst)
+        n_sess += pst['peer-calls']
+        pmiss = [x for x in ('peer-act:stale', 'peer-act:duplicate', 'peer-act:partial', 'peer-act:nothing', 'peer-act:write-script', 'peer-act:write-cut-by-timeout',
+                             'peer-act:release', 'peer-act:exception') if classes.get(x, 0) < 3]
+        ctx.oblige('scripted-peer-generator-reaches-expected-classes', not pmiss, f'missing={pmiss}')
     classes['max_frame_len_tcp'] = max_len['T']
     classes['max_frame_len_rtu'] = max_len['R']
     ctx.coverage.update({
